@@ -729,8 +729,37 @@ def fragment_program(rng, stats=None):
         if isinstance(flow, tuple) and any(t == shape for _, t in flow[2]): opts += ["ripple_idx", "ripple_idx"]
         holders = [(x, t) for x, t in env if isinstance(t, tuple) and any(ft == shape for _, ft in t[2])]
         if holders: opts.append("var_idx")
-        if d < 3: opts += ["pipe", "block"] + ([] if nobind else ["bind_then"])
+        if d < 3: opts += ["pipe", "block", "branches", "branches"] + ([] if nobind else ["bind_then"])
         k = rng.choice(opts)
+        if k == "branches":
+            # a real block: an integer scrutinee, branches whose conditions are literal matches / bare
+            # binders (with or without a consequence), a default branch last
+            note("block_with_branches")
+            scr = term_for("int", env, flow, d + 1, nobind)
+            brs = []
+            for _ in range(rng.randint(0, 2)):
+                r = rng.random()
+                if r < 0.4:
+                    note("literal_condition_with_consequence")
+                    brs.append("=%d => %s" % (rng.choice([0, 1, 2, 7, 42]), term_for(shape, list(env), "int", d + 1)))
+                elif r < 0.6:
+                    note("literal_condition")
+                    brs.append("=%d, %s" % (rng.choice([0, 1, 2, 7, 42]), term_for(shape, list(env), None, d + 1)))
+                else:
+                    note("binder_condition")
+                    x = var()
+                    brs.append("=%s, %s" % (x, term_for(shape, list(env) + [(x, "int")], None, d + 1)))
+            r = rng.random()
+            if r < 0.5:
+                brs.append(term_for(shape, list(env), "int", d + 1))
+            elif r < 0.8:
+                x = var()
+                note("single_or_last_binding_branch")
+                brs.append("%s = ~, %s" % (x, term_for(shape, list(env) + [(x, "int")], None, d + 1)))
+            else:
+                x = var()
+                brs.append("=%s, %s" % (x, term_for(shape, list(env) + [(x, "int")], None, d + 1)))
+            return "%s { %s%s }" % (scr, "| " if rng.random() < 0.3 else "", " | ".join(brs))
         if k == "lit":
             if shape == "int":
                 return str(rng.choice([0, 1, 2, 7, -3, 42, 10**12]))
@@ -762,10 +791,40 @@ def fragment_program(rng, stats=None):
         env.append((x, shape))
         return "%s =%s %s" % (src, x, x)
 
-    steps, env = [], []
+    steps, env, funs = [], [], []
+
+    def shape_ty(sh):
+        if sh == "int":
+            return "'int"
+        inner = ", ".join((l + ": " if l else "") + shape_ty(t) for l, t in sh[2])
+        if sh[1] and not sh[2]:
+            return sh[1]
+        return (sh[1] or "") + "[" + inner + "]"
+
     for _ in range(rng.randint(1, 6)):
         sh = rand_shape()
         r = rng.random()
+        if r < 0.18:
+            # a non-capturing function `f = #T { body }` (its body sees only its parameter and the
+            # functions it defines itself)
+            note("function_definition")
+            f = "f%d" % (len(funs) + 1 + fresh[0] * 100)
+            fresh[0] += 1
+            psh = rand_shape()
+            body = term_for(sh, [], psh, 1)
+            steps.append("%s = #%s { %s }" % (f, shape_ty(psh) if psh == "int" or psh[2] or psh[1] else "['int]", body))
+            if psh == "int" or psh[2] or psh[1]:
+                funs.append((f, psh, sh))
+            else:
+                funs.append((f, ("tup", None, [(None, "int")]), sh))
+            continue
+        if r < 0.33 and funs:
+            note("function_call")
+            f, psh, rsh = rng.choice(funs)
+            x = var()
+            steps.append("%s = %s %s" % (x, term_for(psh, env, None, 1), f))
+            env.append((x, rsh))
+            continue
         if r < 0.45:
             x = var()
             steps.append("%s = %s" % (x, term_for(sh, env, None, 0)))
